@@ -321,7 +321,7 @@ def run(ctx: vlib.Ctx):
         ctx.coqchk()
     scratch = ctx.mkscratch()
     corpus = json.loads((vlib.VERIF / "corpus" / "C01.json").read_text())
-    n_prog = 14 if ctx.quick else 120
+    n_prog = 14 if ctx.quick else 90
     n_inp = 3 if ctx.quick else 6
     progs = [(c["src"], c.get("specs") or []) for c in corpus]
     for s in G.SEED_PROGRAMS:
